@@ -279,7 +279,8 @@ def delSlots (idx : Nat) : List Nat → List (WObs V) → Except Err Unit × Lis
       if idx < ob.feats.length then delSlots idx ids (h.set id { ob with feats := ob.feats.eraseIdx idx })
       else (.error .index, h)
 
-/-- createAnalyticalFeature(name, val_init) on the track in focus -/
+/-- createAnalyticalFeature(name, val_init) on the track in focus; a list shorter than the track is refused with an
+`IndexError` before anything is written (the name is not registered, no slot is appended) -/
 def createW (name : String) (init : Init V) : M (World V) Unit := fun w =>
   if reserved name then (.error .reserved, w)
   else if w.trk.ids.isEmpty then (.error .empty, w)
@@ -289,8 +290,11 @@ def createW (name : String) (init : Init V) : M (World V) Unit := fun w =>
     match init with
     | .scalar v => (.ok (), { w1 with heap := appendScalar v w.trk.ids w.heap })
     | .list l =>
-      let r := appendVals w.trk.ids l w.heap
-      (r.1, { w1 with heap := r.2 })
+      -- `if isinstance(val_init, list) and len(val_init) < self.size(): raise IndexError` BEFORE the name is registered
+      if l.length < w.trk.ids.length then (.error .index, w)
+      else
+        let r := appendVals w.trk.ids l w.heap
+        (r.1, { w1 with heap := r.2 })
 
 /-- updateAnalyticalFeature(name, new_val) -/
 def updateW (name : String) (init : Init V) : M (World V) Unit := fun w =>
